@@ -6,6 +6,8 @@ CONSTANTS
  FixBreakOnError = TRUE
  FixSentinel = TRUE
  FixLfsFail = TRUE
+ DevStaleCache = FALSE
+ DevTruncAccepted = FALSE
 INIT TInit
 NEXT TNext
 POSTCONDITION Reached
